@@ -24,6 +24,7 @@ func runC12(c *eng.Ctx) {
 	c.Rule("R12.5", "K5")
 	ruleEmptySubscriberHeapIsDropped(c)
 	ruleJoiningConsumerEntersEachStreamOnce(c)
+	ruleRepeatedJoinIsRefused(c)
 	c.Rule("R12.8", "K5")
 	ruleRebalanceCountsPartitionsNow(c)
 	p := c.P
